@@ -91,14 +91,17 @@ structure Variant where
   fireKeepsShared : Bool      -- remove_fire_fighting_demand keeps usage / pattern that something else still refers to
   leakChecksFirst : Bool      -- add_leak tests both control names before it adds the first control
   sourceNodeMoves : Bool      -- the Source.node_name setter moves the node usage record
+  assignRegisters : Bool      -- assign_demand registers the usage of the pattern it creates (through add_demand)
   deriving DecidableEq, Repr
 
-def coded : Variant := ⟨false, false, false, false, false, false, false, false, false, false, false, false, false, false⟩
-def repaired : Variant := ⟨true, true, true, true, true, true, true, true, true, true, true, true, true, true⟩
+def coded : Variant := ⟨false, false, false, false, false, false, false, false, false, false, false, false, false, false, false⟩
+def repaired : Variant := ⟨true, true, true, true, true, true, true, true, true, true, true, true, true, true, true⟩
 /-- the tree with the repairs of rounds 1-3 but without those of round 4 -/
-def round3 : Variant := ⟨true, true, true, true, true, true, true, true, true, true, true, true, false, false⟩
+def round3 : Variant := ⟨true, true, true, true, true, true, true, true, true, true, true, true, false, false, false⟩
+/-- the tree with the repairs of rounds 1-4 -/
+def round4 : Variant := ⟨true, true, true, true, true, true, true, true, true, true, true, true, true, true, false⟩
 /-- the tree with the first nine repairs (round 1) but without the three of round 2 -/
-def round1 : Variant := ⟨true, true, true, true, true, true, true, true, true, false, false, false, false, false⟩
+def round1 : Variant := ⟨true, true, true, true, true, true, true, true, true, false, false, false, false, false, false⟩
 
 /-! ### association lists (OrderedDict) and ordered sets -/
 
@@ -384,6 +387,7 @@ inductive Op
   | addLeak (node : Name) (start end_ : Bool)                   -- node.add_leak(wn, area, start_time?, end_time?)
   | removeLeak (node : Name)                                    -- node.remove_leak(wn)
   | setSourceNode (src node : Name)                             -- wn.get_source(src).node_name = node
+  | assignDemand (node pat : Name)                              -- wn.assign_demand(DataFrame({node: ...}), prefix): pat = prefix + node
   | addTank (name : Name) (curve : Option Name)
   | addReservoir (name : Name) (pat : Option Name)
   | addPipe (name a b : Name)
@@ -571,6 +575,18 @@ def updateControl (s : Reg) (name : Name) (nodes links : List Name) : Reg × Out
   | none => (s, .error)
   | some us =>
     if AL.has s.controls name then ({ s with controls := AL.set s.controls name us }, .ok) else (s, .error)
+
+/-- `wn.assign_demand(demand, prefix)` for one junction column: a new pattern `prefix + name` (ValueError when it exists), the
+demand list is cleared and gets ONE entry over that pattern; as coded the entry is appended directly (no usage is registered) -/
+def assignDemand (v : Variant) (s : Reg) (n p : Name) : Reg × Out :=
+  match AL.get? s.nodes n with
+  | none => (s, .error)
+  | some i =>
+    if i.kind ≠ .junction || s.patterns.contains p then (s, .error)
+    else
+      let s1 := { s with patterns := s.patterns ++ [p] }
+      let s2 := if v.assignRegisters then addUsage s1 (siteReg .addDemand) p (n, .junction) else s1
+      ({ s2 with nodes := AL.set s2.nodes n { i with demands := [(some p, false)] } }, .ok)
 
 def leakCtl (n : Name) (isStart : Bool) : Name := 1000000 + 2 * n + (if isStart then 0 else 1)
 
@@ -826,6 +842,7 @@ def step (v : Variant) (s : Reg) : Op → Reg × Out
   | .addLeak n a b => addLeak v s n a b
   | .removeLeak n => removeLeak s n
   | .setSourceNode n nd => setSourceNode v s n nd
+  | .assignDemand n p => assignDemand v s n p
   | .addTank n c => addTank v s n c
   | .addReservoir n p => addReservoir v s n p
   | .addPipe n a b => addPipe v s n a b
